@@ -182,6 +182,7 @@ struct Parsed {
     an: usize,
     ns: usize,
     ar: usize,
+    n_opt: usize,
 }
 
 fn parse(b: &[u8]) -> Option<Parsed> {
@@ -193,7 +194,7 @@ fn parse(b: &[u8]) -> Option<Parsed> {
     for _ in 0..qd {
         i = skip_name(b, i)? + 4;
     }
-    let mut p = Parsed { last_rr_start: 0, last_type: 0, last_owner: vec![], last_rdata: vec![], an, ns, ar };
+    let mut p = Parsed { last_rr_start: 0, last_type: 0, last_owner: vec![], last_rdata: vec![], an, ns, ar, n_opt: 0 };
     for _ in 0..an + ns + ar {
         let start = i;
         let e = skip_name(b, i)?;
@@ -206,6 +207,9 @@ fn parse(b: &[u8]) -> Option<Parsed> {
         }
         p.last_rr_start = start;
         p.last_type = be16(b, e);
+        if p.last_type == 41 {
+            p.n_opt += 1;
+        }
         p.last_owner = expand_name(b, start)?;
         p.last_rdata = b[e + 10..e + 10 + rdl].to_vec();
         i = e + 10 + rdl;
@@ -329,7 +333,8 @@ fn main() {
             let rcode = resp[3] & 0x0f;
             let tc = (resp[2] >> 1) & 1;
             let has_tsig = p.ar > 0 && p.last_type == 250;
-            let ar_other = p.ar - has_tsig as usize;
+            // answer data: anything but the OPT and TSIG pseudo-RRs
+            let ar_other = p.ar - has_tsig as usize - p.n_opt;
             let answer = (p.an + p.ns + ar_other > 0) as u8;
             let mut line = format!("rcode={rcode} tc={tc} answer={answer}");
             if !has_tsig {
